@@ -24,6 +24,37 @@ Proof.
 Qed.
 Print Assumptions C16_encode_decode.
 
+(* Decode then encode.  Under the same hypotheses on the table, plus: defaults of optional fields are
+   None / [] / {} on Optional / list / dict annotations (defaults_ok).  Every document that conforms to
+   an annotation (canonical leaf texts, no unknown keys, required keys present; arbitrary nesting, no
+   bound) is structured, the instance is unstructured again, and the result is the input document
+   up to (1) object keys in class order and (2) absent optional keys reappearing as null or as an empty
+   container (rt_rel). *)
+Theorem C16_decode_encode :
+  forall b64dec b64enc dt_parse date_parse uuid_parse time_parse int_of_str float_of_str str_of_json ct sreg ureg,
+    (forall b, b64dec (b64enc b) = Some b) ->
+    ct_ok ct -> all_hooked ct sreg -> all_hooked ct ureg -> defaults_ok ct ->
+    forall j T, ty_ok T = true -> conforms b64enc dt_parse date_parse uuid_parse time_parse ct T j ->
+    exists v j',
+      structure b64dec dt_parse date_parse uuid_parse time_parse int_of_str float_of_str str_of_json ct sreg j T = Ok v /\
+      unstructure b64enc ct ureg v T = Ok j' /\ rt_rel ct T j j'.
+Proof.
+  intros until T. intros Hok Hc.
+  destruct (decode_encode_core b64dec b64enc dt_parse date_parse uuid_parse time_parse int_of_str float_of_str
+              str_of_json ct sreg ureg H H0 H1 H2 H3 j T Hok Hc) as [v [j' [Hs [Hu [Hr _]]]]].
+  exists v, j'. repeat split; assumption.
+Qed.
+Print Assumptions C16_decode_encode.
+
+(* non-vacuity of the decode side: the demo table has lawful defaults and a conforming document with an
+   absent optional key *)
+Theorem C16_decode_guard_nonvacuous :
+  defaults_ok ct_demo /\
+  forall b64enc dt_parse date_parse uuid_parse time_parse,
+    conforms b64enc dt_parse date_parse uuid_parse time_parse ct_demo (TData 0) (j_demo b64enc).
+Proof. exact (conj ct_demo_defaults j_demo_conforms). Qed.
+Print Assumptions C16_decode_guard_nonvacuous.
+
 (* The hypotheses above are satisfiable by a non-trivial table (renamed keys incl. a key that differs
    from another only by case-fold, an optional list, bytes). *)
 Theorem C16_guard_nonvacuous :
